@@ -128,6 +128,8 @@ func VerifC03RealBig() {
 	pay := &PaymentService{NonceStore: db, AccountStore: db, BalanceStore: cp, WithdrawMin: big.NewInt(1000000000),
 		Settle: func(store.Account, *big.Int, *big.Int) (string, error) { return "", errors.New("not reached") }}
 	steps := verifapi.Param("steps", 3)
+	// a balance handed out now (a pool_account reply somebody keeps) is a snapshot (C10)
+	first, _ := cp.GetAccountBalance(wal)
 	for k := 0; k < steps; k++ {
 		if verifapi.Param("withdraws", 1) == 1 && verifapi.Bool("withdraw-attempt") {
 			nonce := pool.VerifFreshNonce()
@@ -164,6 +166,17 @@ func VerifC03RealBig() {
 		// a (re)connect at this point is judged on the same balance
 		cerr := mgr.OnClient(store.Node{ID: client})
 		verifapi.Assert((cerr != nil) == (credit+deposit < min), "c03.real.connect-judged-on-actual-balance")
+		// ... and is a pure read: the ledger still adds up to what it started with (C01)
+		stored, _ = db.GetAccountBalance(wal)
+		sum := stored.Credit.Int64()
+		hb, _ = db.GetNodeBalance(host)
+		sum += hb.Credit.Int64()
+		if nh == 2 && !shared {
+			hb2, _ := db.GetNodeBalance(host2)
+			sum += hb2.Credit.Int64()
+		}
+		verifapi.Assert(stored.Credit.Int64() == credit && sum == 500, "c01.real.connect-and-keepalive-preserve-the-sum")
 	}
 	verifapi.Reach("c03.real")
+	verifapi.Assert(first.Credit.Int64() == 500 && first.Deposit.Int64() == deposit, "c10.real.handed-out-balance-is-a-snapshot")
 }
